@@ -1,4 +1,5 @@
 import AdeptProofs.Lemmas.Tape
+import AdeptProofs.Lemmas.TapeLawFree
 /-!
 # C02 — forward, reverse and Jacobian results of one recording agree
 
@@ -6,6 +7,24 @@ Property theorems only (helper lemmas: `AdeptProofs/Lemmas/Tape.lean`).  Everyth
 arbitrary commutative ring `R` and over `AdeptModel/Tape.lean`, the transcription of
 `Stack::compute_tangent_linear`, `Stack::compute_adjoint` and the Jacobian routines of `jacobian.cpp`;
 the correspondence check (checks/c02.py) ties that model to the C++ on every run.
+
+Second layer (`…_lawfree`, end of the file): which of these equalities hold OPERATION FOR OPERATION, i.e. with no algebraic
+law assumed (any carrier with `+ * 0 1` and any zero test; on IEEE doubles: bit for bit), and which do not:
+
+* forward Jacobian, any block width, column `j` = the tangent-linear pass of `e_{x_j}`            — law-free (proved)
+* forward Jacobian blocked = unblocked (`W` = any two widths)                                    — law-free (proved)
+* reverse Jacobian, `W = 1`, row `i` = the adjoint pass of `e_{y_i}`                             — law-free (proved)
+* reverse Jacobian, `W > 1`, row = adjoint pass / blocked = unblocked                            — NOT law-free: the sweeps
+  test the adjoints of a whole block at once, so a lane whose own adjoint is zero still executes `+= m*0` when a
+  neighbouring lane is non-zero.  Proved under the one hypothesis `nz a = false → x + m*a = x` (true in every ring), and
+  in the sharp form `C02_jac_row_eq_adjoint_pass_of_good` with that hypothesis restricted to the values the buffers can
+  hold and the multipliers of the recording (true on doubles when the multipliers are finite: the buffers never hold
+  `-0.0`; false for `m = ±Inf, NaN`: `Inf*0 = NaN`); refuted without it in `AdeptProofs/Refute/Tape.lean`
+  (`C02_refute_rev_row_lawfree`, `C02_refute_rev_blocked_lawfree`).
+* forward Jacobian = reverse Jacobian                                                            — needs the ring laws
+  (`C02_jac_fwd_eq_rev`, `C02_fwd_routine_eq_rev_routine` above keep their `CommRing` statement): the two sweeps multiply
+  the same factors in opposite association; refuted over a commutative, non-associative (truncating) multiplication in
+  `C02_refute_fwd_eq_rev_lawfree`.  The property asks for "equal to rounding" there.
 -/
 namespace Adept.Tape
 variable {R : Type} [CommRing R] [DecidableEq R]
@@ -59,6 +78,81 @@ theorem C02_layout_rowmajor (m n : Nat) : LayoutOK m n n 1 (m * n) := layout_row
 
 /-- `Stack::jacobian` picks the forward routine iff `n ≤ m`. -/
 theorem C02_chooser (n m : Nat) : chooseForward n m = true ↔ n ≤ m := by simp [chooseForward]
+
+/-! ## Law-free layer -/
+
+section LawFree
+variable {R : Type} [Add R] [Mul R] [Zero R] [One R]
+
+/-- Column by column, operation for operation: for every carrier with the four operations, every recording, every block
+    width `W ≥ 1` and every `m`, `n`, the serial forward routine leaves in cell `(i,j)` exactly the expression
+    `Stack::compute_tangent_linear` computes from the seed `e_{x_j}`, read at `y_i` (accumulator started at `0`, terms
+    added in push order, `multiplier * gradient`), and touches no other cell.  No hypothesis on the recording. -/
+theorem C02_jac_col_eq_tangent_pass_lawfree (t : List (Stmt R)) (c : JacCfg) (indep dep : List Nat) (out : Out R)
+    (hW : 0 < c.W) (hl : LayoutOK dep.length indep.length c.depOff c.indepOff out.length) :
+    LF.JacSpecE (fun i j => LF.entryFwd t c.maxGrad (indep.getD j 0) (dep.getD i 0)) dep.length indep.length
+      c.depOff c.indepOff out (jacFwdSerial t c indep dep out) :=
+  LF.jacFwdSerial_spec t c indep dep out hW hl
+
+/-- Blocked = unblocked, forward, operation for operation: any two block widths give the same buffer (lane `j` of a block
+    of width `W` computes exactly what a pass of width 1 computes; the full kernel and `kernel_extra` agree lane by lane). -/
+theorem C02_blocked_eq_unblocked_fwd_lawfree (t : List (Stmt R)) (c : JacCfg) (W' : Nat) (indep dep : List Nat) (out : Out R)
+    (hW : 0 < c.W) (hW' : 0 < W') (hl : LayoutOK dep.length indep.length c.depOff c.indepOff out.length) :
+    jacFwdSerial t c indep dep out = jacFwdSerial t { c with W := W' } indep dep out :=
+  (LF.jacFwdSerial_spec t c indep dep out hW hl).unique
+    (LF.jacFwdSerial_spec t { c with W := W' } indep dep out hW' hl)
+
+/-- Row by row, operation for operation, when the blocks have ONE lane (`ADEPT_MULTIPASS_SIZE = 1` without packets): the
+    serial reverse routine leaves in cell `(i,j)` exactly what `Stack::compute_adjoint` computes from the seed `e_{y_i}`,
+    read at `x_j` — for ANY zero test. -/
+theorem C02_jac_row_eq_adjoint_pass_W1_lawfree (nz : R → Bool) (t : List (Stmt R)) (c : JacCfg) (indep dep : List Nat)
+    (out : Out R) (hW : c.W = 1) (hl : LayoutOK dep.length indep.length c.depOff c.indepOff out.length) :
+    LF.JacSpecE (fun i j => LF.entryRev nz t c.maxGrad (indep.getD j 0) (dep.getD i 0)) dep.length indep.length
+      c.depOff c.indepOff out (jacRevSerialB nz t c indep dep out) :=
+  (LF.jacRevSerialB_spec nz t c indep dep out (by omega) hl).congr
+    (fun i j hi _ => LF.revVal_one_lane nz t c indep dep j i hW hi)
+
+/-- The same for every block width, under the single hypothesis that adding `m * a` for an `a` the zero test calls zero
+    changes nothing (`hskip`).  Every ring satisfies it; doubles satisfy it for finite `m` and `x ≠ -0.0`. -/
+theorem C02_jac_row_eq_adjoint_pass_of_skip (nz : R → Bool) (hskip : ∀ x m a : R, nz a = false → x + m * a = x)
+    (t : List (Stmt R)) (c : JacCfg) (indep dep : List Nat) (out : Out R)
+    (hW : 0 < c.W) (hl : LayoutOK dep.length indep.length c.depOff c.indepOff out.length) :
+    LF.JacSpecE (fun i j => LF.entryRev nz t c.maxGrad (indep.getD j 0) (dep.getD i 0)) dep.length indep.length
+      c.depOff c.indepOff out (jacRevSerialB nz t c indep dep out) :=
+  (LF.jacRevSerialB_spec nz t c indep dep out hW hl).congr
+    (fun i j hi _ => LF.revVal_of_skip nz hskip t c indep dep j i hW hi)
+
+/-- The sharp form, with an invariant: it is enough that `x + m*a = x` holds for the accumulator values `x ∈ G` the
+    buffers can hold and the multipliers `m ∈ Mok` the recording contains (`LF.SkipOK`: `G` contains `0`, `1` and is closed
+    under `x ↦ x + m*a`).  IEEE doubles in round-to-nearest satisfy `SkipOK (· != 0.0) (· is not -0.0) (· is finite)`, so
+    on every recording with FINITE multipliers — overflow to `Inf`, `NaN` results, underflow, denormals and signed-zero
+    multipliers included — every row of the reverse Jacobian is bit for bit the adjoint pass, for every block width. -/
+theorem C02_jac_row_eq_adjoint_pass_of_good (nz : R → Bool) (G Mok : R → Prop) (ok : LF.SkipOK nz G Mok)
+    (t : List (Stmt R)) (c : JacCfg) (indep dep : List Nat) (out : Out R)
+    (hW : 0 < c.W) (hl : LayoutOK dep.length indep.length c.depOff c.indepOff out.length)
+    (hm : ∀ s ∈ t, ∀ p ∈ s.ops, Mok p.1) :
+    LF.JacSpecE (fun i j => LF.entryRev nz t c.maxGrad (indep.getD j 0) (dep.getD i 0)) dep.length indep.length
+      c.depOff c.indepOff out (jacRevSerialB nz t c indep dep out) :=
+  (LF.jacRevSerialB_spec nz t c indep dep out hW hl).congr
+    (fun i j hi _ => LF.revVal_of_good ok t c indep dep j i hW hi hm)
+
+/-- Hence, under `hskip`, blocked = unblocked for the reverse routine too. -/
+theorem C02_blocked_eq_unblocked_rev_of_skip (nz : R → Bool) (hskip : ∀ x m a : R, nz a = false → x + m * a = x)
+    (t : List (Stmt R)) (c : JacCfg) (W' : Nat) (indep dep : List Nat) (out : Out R)
+    (hW : 0 < c.W) (hW' : 0 < W') (hl : LayoutOK dep.length indep.length c.depOff c.indepOff out.length) :
+    jacRevSerialB nz t c indep dep out = jacRevSerialB nz t { c with W := W' } indep dep out :=
+  (C02_jac_row_eq_adjoint_pass_of_skip nz hskip t c indep dep out hW hl).unique
+    (C02_jac_row_eq_adjoint_pass_of_skip nz hskip t { c with W := W' } indep dep out hW' hl)
+
+end LawFree
+
+/-- Link of the two layers: over a commutative ring the serial reverse routine as compiled (block-wide zero flag) is the
+    lane-wise routine the ring theorems above speak about, and the law-free entry is the ring entry. -/
+theorem C02_rev_blockwise_eq_lanewise (t : List (Stmt R)) (c : JacCfg) (indep dep : List Nat) (out : Out R) (N x y : Nat) :
+    jacRevSerialB (fun a => decide (a ≠ 0)) t c indep dep out = jacRevSerial t c indep dep out ∧
+    LF.entryFwd t N x y = jacEntryFwd t N x y ∧
+    LF.entryRev (fun a => decide (a ≠ 0)) t N x y = jacEntryRev t N x y :=
+  ⟨LF.jacRevSerialB_ring t c indep dep out, rfl, by unfold LF.entryRev jacEntryRev; rw [LF.revZ_decide]; rfl⟩
 
 /-! Non-vacuity: a two-statement tape with a repeated operand and a re-assigned slot is well formed,
 and its Jacobian entry is not trivially zero. -/
